@@ -617,6 +617,43 @@ class JGen:
         sp = self.space()
         return ("JF " if self.polluted else "J ") + hx("function mk(){ %s return [%s, %s, %s]; }" % (" ".join(self.stmts), v, rp, sp))
 
+V_TEXTS = ["1", "null", "\"s\"", "[]", "{}", "[1,2,3]", "[1,[2,[3,[4]]]]", "{\"a\":1,\"b\":2,\"c\":3}", "{\"a\":[1,2,{\"b\":3}],\"c\":4}",
+           "{\"b\":1,\"a\":{\"2\":true,\"1\":null,\"x\":[]}}", "[{\"a\":1},{\"a\":2}]", "{\"__proto__\":{\"x\":1},\"y\":[0]}", "[[],{},\"\",0,-0,1e400]",
+           "{\"a\":1,\"a\":2,\"1\":0}", "{\"length\":3,\"0\":1}", "[1,2", "x", ""]
+V_REVIVERS = [
+    "undefined", "null", "5", "\"f\"", "{}", "[]", "Symbol()", "true",
+    "function(k,v){LOG.push(k+\":\"+typeof v+\":\"+(Array.isArray(this)?\"A\":typeof this)); return v}",
+    "function(k,v){return typeof v===\"number\"?v*2:v}",
+    "function(k,v){return k===\"a\"||k===\"1\"?undefined:v}",
+    "function(k,v){return undefined}",
+    "function(k,v){return k===\"\"?v:undefined}",
+    "function(k,v){LOG.push(k); if(k===\"a\"||k===\"0\") delete this.b, delete this[1]; return v}",
+    "function(k,v){LOG.push(k); if(k===\"a\"||k===\"0\") this.zz=[9]; return v}",
+    "function(k,v){LOG.push(k); if(k===\"0\"&&Array.isArray(this)) this.push(7); return v}",
+    "function(k,v){LOG.push(k); if(k===\"0\"&&Array.isArray(this)) this.length=1; return v}",
+    "function(k,v){LOG.push(k); if(k===\"a\"||k===\"0\") Object.freeze(this); return typeof v===\"number\"?v+1:undefined}",
+    "function(k,v){LOG.push(k); if(k===\"a\"||k===\"0\") Object.defineProperty(this,\"b\",{value:5,configurable:false,enumerable:true,writable:true}), Object.defineProperty(this,1,{value:5,configurable:false,enumerable:true,writable:true}); return k===\"b\"||k===\"1\"?undefined:v}",
+    "function(k,v){return Array.isArray(v)?new Proxy(v,{get(t,p,r){LOG.push(\"get:\"+String(p));return Reflect.get(t,p,r)},deleteProperty(t,p){LOG.push(\"del:\"+String(p));return Reflect.deleteProperty(t,p)},defineProperty(t,p,d){LOG.push(\"def:\"+String(p));return Reflect.defineProperty(t,p,d)}}):v}",
+    "function(k,v){return (typeof v===\"object\"&&v!==null&&!Array.isArray(v))?new Proxy(v,{ownKeys(t){LOG.push(\"ownKeys\");return Reflect.ownKeys(t)},getOwnPropertyDescriptor(t,p){LOG.push(\"gopd:\"+String(p));return Reflect.getOwnPropertyDescriptor(t,p)}}):v}",
+    "function(k,v){if(LOG.length===0&&(k===\"a\"||k===\"0\")) this.b={n:[1,2]}, this[1]={n:[1,2]}; LOG.push(k); return v}",
+    "function(k,v){return k===\"\"?v:function(){}}",
+    "function(k,v){return k===\"c\"||k===\"2\"?[v,v]:v}",
+    "function(k,v){if(k===\"b\") throw \"boom\"; return v}",
+    "function(k,v){\"use strict\"; LOG.push(typeof this); return v}",
+    "(k,v)=>v",
+    "new Proxy(function(k,v){return v},{apply(t,th,a){LOG.push(\"apply:\"+a[0]);return Reflect.apply(t,th,a)}})",
+    "class{}",
+]
+
+def gen_v(r):
+    if r.random() < 0.6: text = r.choice(V_TEXTS)
+    else:
+        for _ in range(20):
+            text = gen_text(r)
+            if len(text) < 80 and not any(0xD800 <= u <= 0xDFFF for u in units(text)): break
+        else: text = "[1]"
+    return "V " + hx("function mk(){ return [%s, %s]; }" % (js_str(text), r.choice(V_REVIVERS)))
+
 J_FIXED = [
     "function mk(){ return [{a:[],b:{},c:[[]],d:[{}]}, undefined, 2]; }",
     "function mk(){ return [[[],[1]], undefined, 1]; }",
@@ -804,6 +841,10 @@ def main(ctx):
     n_j = 1500 if quick else 15000
     for _ in range(n_j):
         J.append(JGen(r).case())
+    V = [l for l in corpus if l.startswith("V ") or l.startswith("VF ")]
+    for t in V_TEXTS[:8]:
+        for rv in V_REVIVERS: V.append("V " + hx("function mk(){ return [%s, %s]; }" % (js_str(t), rv)))
+    for _ in range(300 if quick else 6000): V.append(gen_v(r))
     Q = []
     for s in S_STRS + KEY_POOL: Q.append("Q " + hx(s))
     for _ in range(300 if quick else 5000):
@@ -811,7 +852,7 @@ def main(ctx):
         Q.append("Q " + hxu([r.choice([r.randrange(0, 0x30), r.randrange(0, 0x10000), r.randrange(0xD800, 0xE000), 0x22, 0x5c]) for _ in range(n)]))
 
     Plines = ["P " + hxu(us) for us in P]
-    ctx.log("ops: P=%d S=%d J=%d Q=%d" % (len(Plines), len(S), len(J), len(Q)))
+    ctx.log("ops: P=%d S=%d J=%d V=%d Q=%d" % (len(Plines), len(S), len(J), len(V), len(Q)))
 
     # ------------------------------------------------------------------ run
     t0 = time.time()
@@ -819,6 +860,7 @@ def main(ctx):
     implS = shard_run(ctx, h, S)
     implJ = shard_run(ctx, h, J)
     implQ = shard_run(ctx, h, Q)
+    implV = shard_run(ctx, h, V)
     ctx.log("harness done in %.1fs" % (time.time() - t0))
     if lean_ok:
         t0 = time.time()
@@ -833,7 +875,7 @@ def main(ctx):
     ctx.log("python reference done in %.1fs" % (time.time() - t0))
 
     # ------------------------------------------------------------------ compare: parse
-    ctx.count(len(P) + len(S) + len(J) + len(Q))
+    ctx.count(len(P) + len(S) + len(J) + len(Q) + len(V))
     cls = {"accept": 0, "reject": 0, "accept-lone-surrogate": 0}
     bytag = {}
     mm_model_py = []
@@ -886,6 +928,53 @@ def main(ctx):
     for i in badq[:1]:
         ctx.violation("stringify-quote-differs", "JSON.stringify(string) differs from QuoteJSONString for units %s" % Q[i][2:],
                       {"kind": "input", "op": Q[i], "expected": modQ[i], "observed": implQ[i]})
+
+    # ------------------------------------------------------------------ resource: allow-list memory must not scale with its length
+    aout = shard_run(ctx, h, ["A 1048576"])[0]
+    af = parse_fields(aout)
+    asig = "stringify-allow-list-preallocates-by-length-host-oom"
+    if "perslot" not in af:
+        ctx.stats["allowlist_memory"] = "inconclusive: " + aout[:100]
+    else:
+        ctx.stats["allowlist_memory"] = aout
+        prealloc = int(af["perslot"]) >= 8
+        ctx.obligation("resource:JSON.stringify allow-list memory independent of the array's length", "correspondence",
+                       (not prealloc) or ctx.known_signature(asig) is not None, aout)
+        if prealloc:
+            ctx.violation(asig, "JSON.stringify(v, list) allocates >= 8 bytes per unit of list.length up front: `var a=[]; a.length=4294967295; JSON.stringify({}, a)` aborts the host process with 'fatal error: out of memory' (not recoverable)",
+                          {"kind": "input", "op": "A 1048576", "source": "var a=[]; a.length=4294967295; JSON.stringify({}, a)", "observed": aout,
+                           "expected": "memory obtained from the OS during the call does not grow with list.length"})
+
+    # ------------------------------------------------------------------ compare: reviver walk
+    badv = []
+    for i, l in enumerate(V):
+        f = parse_fields(implV[i])
+        ctx.nontriv(l)
+        if "N" not in f or "O" not in f or f["N"] != f["O"]:
+            badv.append((l, implV[i]))
+    vknown = []
+    vreal = []
+    for l, out in badv:
+        src = unhx(l.split(" ")[1])
+        f = parse_fields(out)
+        if src.endswith(", null]; }") and f.get("N", "").startswith("throw:TypeError") and f.get("O", "").startswith("ok:"):
+            vknown.append((l, out))
+        else:
+            vreal.append((l, out))
+    vsig = "parse-reviver-null-throws-typeerror"
+    ctx.obligation("corr:JSON.parse reviver walk (InternalizeJSONProperty oracle vs goja) result dump + call log", "correspondence",
+                   not vreal and (not vknown or ctx.known_signature(vsig) is not None),
+                   "; ".join("%s -> %s" % (unhx(l.split(" ")[1])[:200], out[:200]) for l, out in (vreal + vknown)[:3]))
+    if vknown:
+        l, out = vknown[0]
+        ctx.violation(vsig, "JSON.parse(text, null) throws TypeError (spec: a non-callable reviver is ignored)",
+                      {"kind": "input", "op": l, "source": unhx(l.split(" ")[1]), "observed": out})
+    if vreal:
+        vreal.sort(key=lambda t: len(t[0]))
+        l, out = vreal[0]
+        f = parse_fields(out)
+        ctx.violation("parse-reviver-walk-differs-from-specification", "JSON.parse with reviver differs from InternalizeJSONProperty on %s" % unhx(l.split(" ")[1])[:300],
+                      {"kind": "input", "op": l, "source": unhx(l.split(" ")[1]), "expected": f.get("O"), "observed": f.get("N"), "others": len(vreal) - 1})
 
     # ------------------------------------------------------------------ compare: stringify
     xs = {}
@@ -951,7 +1040,7 @@ def main(ctx):
         ctx.sample({"op": S[i][:100], "goja": implS[i][:100]})
     for i in r.sample(range(len(J)), min(4, len(J))):
         ctx.sample({"op": "J", "source": unhx(J[i].split(" ")[1])[:160], "goja": implJ[i][:100]})
-    ctx.stats["ops"] = {"P": len(P), "S": len(S), "J": len(J), "Q": len(Q)}
+    ctx.stats["ops"] = {"P": len(P), "S": len(S), "J": len(J), "V": len(V), "Q": len(Q)}
     ctx.assumptions += [
         "number text <-> double (StringToNumber / Number::toString) is C12's subject: the theorems treat the canonical number text abstractly (NumCanon); the driver's exact decimal->double conversion is cross-checked against python's float() on every number",
         "documented exception (README §JSON): lone surrogates in string tokens of JSON.parse input come back as U+FFFD; compared against the model with exactly that substitution",
